@@ -1,4 +1,4 @@
-import TlsProofs.AuthHs2
+import TlsProofs.AuthTicket
 import TlsProofs.AuthSrp
 /-
   C05 — peer credentials are recorded only after proof of possession.
@@ -96,6 +96,50 @@ theorem identity_implies_proof (C : Crypto) (s : Settings) :
    fun ver fam chain ske cr sr master t fin own h => hsClient12_ok C s ver fam chain ske cr sr master t fin own h,
    fun ver own chain tCV cv master tFin fin hver h => hsServer12_ok C s ver own chain tCV cv master tFin fin hver h,
    fun ver user N v b A u masterOf tFin fin h => hsServerSRP_ok C ver user N v b A u masterOf tFin fin h⟩
+
+/-- **Session tickets (the `pskTicket` case of `identity_implies_proof`).**  A TLS 1.3 server that
+    completes and records a client chain got it either from this handshake's own Certificate /
+    CertificateVerify (as above), or from a session ticket — and then only from the ticket that
+    was SELECTED as this handshake's PSK: it decrypted under the server's ticket keys, has the
+    negotiated version and PRF hash, is not expired, and its resumption binder over THIS truncated
+    ClientHello verified.  A ticket that is merely offered (wrong binder, other hash, expired,
+    undecryptable) never contributes an identity. -/
+theorem identity_implies_proof_pskTicket (C : Crypto) (s : Settings) (own : Chain) (configs : List PskConfig)
+    (dec : Bytes → Option Ticket) (lifetime now : Nat) (prf : HashName) (trCH : Transcript) (last : Bool)
+    (psks : List (Bytes × Bytes)) (reqCert : Bool) (offered : List SchemeId) (chain : Chain) (tCV : Transcript)
+    (ownScheme : Option SchemeId) (cv : CertVerify) (sec : Bytes) (tFin : Transcript) (fin : Bytes)
+    (h : (hsServer13T C s own configs dec lifetime now prf trCH last psks reqCert offered chain tCV ownScheme cv sec tFin fin).completed = true) :
+    ∃ sess, (hsServer13T C s own configs dec lifetime now prf trCH last psks reqCert offered chain tCV ownScheme cv sec tFin fin).session = some sess ∧
+      fin = finished13 C prf sec tFin ∧
+      (sess.clientCertChain ≠ [] →
+        (sess.clientCertChain = chain ∧ reqCert = true ∧ ClientProof13 C offered chain tCV prf cv) ∨
+        (∃ c, sess.pskIdentity = some c.identity ∧ c.external = false ∧ sess.clientCertChain = c.resumedChain ∧
+          PskChoiceProof C configs dec lifetime now 4 prf trCH psks c)) ∧
+      (∀ ident, sess.pskIdentity = some ident → ∃ c, c.identity = ident ∧
+        PskChoiceProof C configs dec lifetime now 4 prf trCH psks c) :=
+  hsServer13T_ok C s own configs dec lifetime now prf trCH last psks reqCert offered chain tCV ownScheme cv sec tFin fin h
+
+/-- in particular: without a selected PSK and without a client Certificate message no client
+    identity is recorded, whatever tickets were offered -/
+theorem no_identity_without_proof (C : Crypto) (s : Settings) (own : Chain) (configs : List PskConfig)
+    (dec : Bytes → Option Ticket) (lifetime now : Nat) (prf : HashName) (trCH : Transcript) (last : Bool)
+    (psks : List (Bytes × Bytes)) (reqCert : Bool) (offered : List SchemeId) (tCV : Transcript)
+    (ownScheme : Option SchemeId) (cv : CertVerify) (sec : Bytes) (tFin : Transcript) (fin : Bytes)
+    (hsel : pskSelectT C configs dec lifetime now 4 prf trCH last psks 0 = .ok none) :
+    ∀ sess, (hsServer13T C s own configs dec lifetime now prf trCH last psks reqCert offered [] tCV ownScheme cv sec tFin fin).session = some sess →
+      sess.clientCertChain = [] := by
+  intro sess hs
+  unfold hsServer13T at hs
+  simp only [hsel] at hs
+  by_cases hr : reqCert = true
+  · simp only [hr, if_true, verifyCV13Server, pure, Except.pure] at hs
+    by_cases hf : fin = finished13 C prf sec tFin
+    · simp [hf, Outcome.done] at hs; rw [← hs]
+    · simp [hf, Outcome.fail] at hs
+  · simp only [hr, Bool.false_eq_true, if_false] at hs
+    by_cases hf : fin = finished13 C prf sec tFin
+    · simp [hf, Outcome.done] at hs; rw [← hs]
+    · simp [hf, Outcome.fail] at hs
 
 /-- With a delegated credential the TLS 1.3 client uses the credential's key only after the
     delegation signature verified under the CERTIFICATE key over the DC context (certificate ‖
